@@ -419,13 +419,21 @@ def r7_stack_history(ctx, F):
         return [repr(deref(x)) for x in v.items]
 
     # op executed at cycle c: kind. A push at cycle c is keyed Felt::from(c) by Stack::shift_right, a pop by clk = c (shift_left)
-    events = {2: "push", 3: "push", 6: "pop", 7: "pop", 9: "push", 11: "pop", 13: "push", 14: "push", 16: "pop"}
-    last = 19
+    base_events = {2: "push", 3: "push", 6: "pop", 7: "pop", 9: "push", 11: "pop", 13: "push", 14: "push", 16: "pop"}
+    scenarios = [(n_init, base_events, 19) for n_init in (0, 2, 3)]
+    if ctx.tier == "thorough":
+        # every sequence of six consecutive cycles over {push, pop, no overflow event}, starting at cycle 1, without / with deep inputs
+        import itertools
+        for n_init in (0, 2):
+            for seq in itertools.product(("push", "pop", None), repeat=6):
+                ev = dict((i + 1, k) for i, k in enumerate(seq) if k)
+                if ev:
+                    scenarios.append((n_init, ev, 8))
     n_points = 0
-    for n_init in (0, 2, 3):
+    for n_init, events, last in scenarios:
         I = Interp(F)
         procmodel.install_field(I)
-        key = "overflow-history|init=%d" % n_init
+        key = "overflow-history|init=%d" % n_init if events is base_events else "overflow-history|init=%d|%s" % (n_init, "".join("%d%s" % (c, k[1]) for c, k in sorted(events.items())))
         ctx.inst(key=key, nontrivial=True)
         try:
             if n_init:
